@@ -504,7 +504,15 @@ def decide(pid, pc, tier, seed, work, t0, finder_driver):
     if rc == 0 and pid in finder_driver.SUPPORTED and fbudget > 0:
         # every obligation was discharged: additionally replay sampled inputs of the property's domain on the
         # real code (sampled, never counted as discharged); a hit means a hole in a contract or in the trusted base
-        sampled = finder_driver.find(pid, seed, fbudget, REPO, None)
+        if tier == 'thorough':
+            # thorough: eight independent sample streams (seed .. seed+7) side by side, 120 s each
+            with concurrent.futures.ThreadPoolExecutor(max_workers=8) as ex:
+                runs = list(ex.map(lambda k: finder_driver.find(pid, seed * 8 + k, fbudget, REPO, None), range(8)))
+            hits = [x for x in runs if x and x.get('found') and not finder_driver.is_known_input(pid, x, load_known())]
+            sampled = hits[0] if hits else dict(found=False, evaluations=sum((x or {}).get('evaluations') or 0 for x in runs), streams=8,
+                                                 known_class_hits=sum((x or {}).get('known_class_hits') or 0 for x in runs))
+        else:
+            sampled = finder_driver.find(pid, seed, fbudget, REPO, None)
         if sampled and sampled.get('found') and not finder_driver.is_known_input(pid, sampled, load_known()):
             rp = os.path.join(VERIF, 'replay', pid, 'finder.json')
             json.dump(dict(property=pid, obligation='(none failed: hole in a contract or in the trusted base)', counterexample=sampled,
